@@ -10,7 +10,7 @@ RULE = ("trees of generated programs (both standards; comments dropped / kept / 
         "node identity sets disjoint; mutating the copy leaves the original's text unchanged. non-trivial = tree has >= 50 nodes"
         ' Correspondence: on every third program the copy model (Fp.Tree deepcopy over the generated class facts) gives its verdict, canonical form, id-disjointness and parent links for deepcopy and pickle from the root and from one inner node; compared with the real copies.')
 ASSUMPTIONS = ["CPython's copy/pickle protocol (__reduce_ex__(4), copyreg.__newobj__) is modelled by Fp.Tree.deepcopy/pickleRoundTrip"]
-TIE_MODULES = ["FparserModel.Tree", "FparserModel.Generated.Classes2008", "FparserModel.Props.Tree"]
+TIE_MODULES = ["FparserModel.Tree", "FparserModel.Generated.Classes2008", "FparserModel.Props.Tree", "FparserModel.Tree3", "FparserModel.Generated.Tree3Proto", "FparserModel.Props.Tree3"]
 
 
 def run_case(case):
@@ -76,4 +76,5 @@ def cases(tier, seed):
 
 
 def run(tier, rep, st):
+    util.sub_cosim(rep, tier, "cosim_tree3", "Fp.Tree3", 60, 600)
     engine.run_cases(__name__, cases(tier, rep.seed), rep)
